@@ -32,19 +32,21 @@ INVARIANTS = ['TypeOK', 'ExtractExact', 'NoDanglingStrong', 'NoDanglingWeak', 'R
               'PresentClassesLoad', 'AllStoredLoad']
 PROPERTIES = ['StoredIffReachableOrAdded', 'CommitTouchesOnlyClosure', 'OnlyCommitAndPackStore', 'TouchKeepsRecords']
 ACTIONS = ('AddEdge', 'RemoveEdge', 'ExplicitAdd', 'Commit', 'LoadElsewhere', 'Pack',
-           'MinimizeAllB', 'MinimizeSomeB', 'AbortB', 'CloseB', 'ResetCaches', 'Savepoint', 'Rollback', 'TouchElsewhere')
+           'MinimizeAllB', 'MinimizeSomeB', 'AbortB', 'CloseB', 'ResetCaches', 'Savepoint', 'Rollback', 'TouchElsewhere',
+           'Abort', 'ImportCopy')
 # deviation constants: TRUE = the code as it is (what every conformance run uses)
-DEVIATIONS = ('SavepointOrphans', 'Py2Remap', 'BrokenContainerUnloadable', 'BrokenReduceLosesArgs')
+DEVIATIONS = ('SavepointOrphans', 'Py2Remap', 'BrokenContainerUnloadable', 'BrokenReduceLosesArgs', 'ImportNotCreating')
 FORMATS = ('oc', 'o', 'w', 'wd', 'm', 'n')
 
 
 def consts(NNode=3, FNodes=(100,), Holders=('direct', 'list'), KindSets='KS_Rot0', MaxEdges=2, MaxOps=5,
            WeakAdds=True, NCand=1, CandSize=1, Lifecycle=False, Savepoints=False, MaxSp=2, Touches=False,
-           repaired=()):
+           ImportSlots=(), repaired=()):
     def b(x):
         return 'TRUE' if x else 'FALSE'
     dev = {d: b(d not in repaired) for d in DEVIATIONS}
-    return {**dev, 'Savepoints': b(Savepoints), 'MaxSp': MaxSp, 'Touches': b(Touches), 'NNode': NNode, 'FNodes': '{' + ', '.join(str(f) for f in FNodes) + '}',
+    return {**dev, 'Savepoints': b(Savepoints), 'MaxSp': MaxSp, 'Touches': b(Touches),
+            'ImportSlots': '{' + ', '.join(str(x) for x in ImportSlots) + '}', 'NNode': NNode, 'FNodes': '{' + ', '.join(str(f) for f in FNodes) + '}',
             'Holders': '{' + ', '.join('"%s"' % h for h in Holders) + '}', 'KindSets': '<- ' + KindSets,
             'MaxEdges': MaxEdges, 'MaxOps': MaxOps, 'WeakAdds': 'TRUE' if WeakAdds else 'FALSE',
             'NCand': NCand, 'CandSize': CandSize, 'Lifecycle': 'TRUE' if Lifecycle else 'FALSE'}
@@ -173,12 +175,57 @@ def _died(job, status):
                          'detail': 'the interpreter died (%s) while this behaviour was replayed' % how}}
 
 
-def graphs(ctx, tally, name, c, fnodes, both=False):
-    """all small graphs of one configuration -> number of cases"""
-    cfg = _cfg(ctx, name, c, init='InitGraphs', next_='NextGraphs', invariants=['TypeOK', 'RoundTrip', 'ExtractExact',
-                                                                              'NoDanglingStrong', 'NoDanglingWeak',
-                                                                              'PackKeepsReachable'])
-    r = ctx.model_check('MCZGraph', cfg, name=name, timeout=1500, heap='6g')
+class Batch:
+    """TLC runs of one check, started together (threads that wait for a JVM each; all joined before any replay
+    worker is forked) and booked in the order they were asked for."""
+
+    def __init__(self, ctx, parallel):
+        self.ctx, self.parallel, self.jobs, self.results = ctx, parallel, [], {}
+
+    def mc(self, name, cfg, expect=None, workers=2, **kw):
+        self.jobs.append((name, 'mc', expect, dict(kw, cfg=cfg, workers=workers)))
+
+    def sim(self, name, c, num, depth):
+        wd = os.path.join(self.ctx.scratch, 'sim-' + name)
+        out = os.path.join(wd, 'out')
+        os.makedirs(out)
+        cfg = tlc.write_cfg(os.path.join(wd, name + '.cfg'), constants=c, init='InitSim')
+        self.jobs.append((name, 'sim', (out, num), dict(cfg=cfg, workdir=wd, simulate='file=%s/tr,num=%d' % (out, num),
+                                                        depth=depth, seed=self.ctx.seed + 1, workers=1, timeout=1200)))
+
+    def run(self):
+        from concurrent.futures import ThreadPoolExecutor
+        ctx = self.ctx
+        with ThreadPoolExecutor(max_workers=self.parallel) as ex:
+            futs = [(j, ex.submit(tlc.run, 'MCZGraph', j[3].pop('cfg'), **j[3])) for j in self.jobs]
+            done = [(j, f.exception(), f) for j, f in futs]
+        for (name, kind, expect, kw), err, f in done:
+            if err is not None:
+                raise err
+            r = f.result()
+            if kind == 'sim':
+                if not r.ok:
+                    raise tlc.TLCError('simulation %s: %s\n%s' % (name, r.violation, r.output[-2000:]))
+                ctx.model['runs'].append(dict(r.summary(), name='simulate-' + name))
+                files = sorted(glob.glob(os.path.join(expect[0], 'tr_*')))
+                if len(files) < expect[1]:
+                    raise tlc.TLCError('simulation %s produced %d of %d behaviours' % (name, len(files), expect[1]))
+                r.files = files
+            else:
+                ctx.add_tlc(name, r)
+                if expect is None and not r.ok:
+                    raise tlc.TLCError('%s: unexpected violation of %s\n%s' % (name, r.violation, r.output[-3000:]))
+                if expect is not None and r.violation != expect:
+                    raise tlc.TLCError('%s: expected violation of %s, got %s' % (name, expect, r.violation))
+            self.results[name] = r
+        return self.results
+
+
+GRAPH_INVARIANTS = ['TypeOK', 'RoundTrip', 'ExtractExact', 'NoDanglingStrong', 'NoDanglingWeak', 'PackKeepsReachable']
+
+
+def graphs(ctx, tally, name, r, fnodes, both=False):
+    """all small graphs of one configuration (r: the TLC run that printed them) -> number of cases"""
     cases = G.split_graph_cases(r.output)
     del r.output
     if len(set(cases)) != len(cases) or not cases:
@@ -187,30 +234,18 @@ def graphs(ctx, tally, name, c, fnodes, both=False):
     return len(cases)
 
 
-def programs(ctx, tally, name, c, fnodes, num, depth):
-    wd = os.path.join(ctx.scratch, 'sim-' + name)
-    out = os.path.join(wd, 'out')
-    os.makedirs(out)
-    cfg = tlc.write_cfg(os.path.join(wd, name + '.cfg'), constants=c, init='InitSim')
-    r = tlc.run('MCZGraph', cfg, workdir=wd, simulate='file=%s/tr,num=%d' % (out, num), depth=depth,
-                seed=ctx.seed + 1, workers=1, timeout=1200)
-    if not r.ok:
-        raise tlc.TLCError('simulation %s: %s\n%s' % (name, r.violation, r.output[-2000:]))
-    ctx.model['runs'].append(dict(r.summary(), name='simulate-' + name))
-    files = sorted(glob.glob(os.path.join(out, 'tr_*')))
-    if len(files) < num:
-        raise tlc.TLCError('simulation %s produced %d of %d behaviours' % (name, len(files), num))
-    replay_jobs(ctx, tally, jobs_for(ctx, files, fnodes, name), 'programs/' + name, chunksize=4)
-    return len(files)
+def programs(ctx, tally, name, r, fnodes):
+    replay_jobs(ctx, tally, jobs_for(ctx, r.files, fnodes, name), 'programs/' + name, chunksize=4)
+    return len(r.files)
 
 
-def deviation_witness(ctx):
+WITNESS = dict(NNode=2, FNodes=(), Holders=('direct',), KindSets='KS_Rot0', MaxEdges=1, MaxOps=3, WeakAdds=False)
+
+
+def deviation_witness(ctx, r):
     """The named deviation: with WeakAdds = FALSE (a weak reference does not add its target) TLC exhibits a
     commit after which a weak reference leads to nothing.  Replayed on the code, the behaviour must leave
     that specification exactly at the commit, by storing the target: the code has the deviation."""
-    c = consts(NNode=2, FNodes=(), Holders=('direct',), KindSets='KS_Rot0', MaxEdges=1, MaxOps=3, WeakAdds=False)
-    cfg = _cfg(ctx, 'weakadds-off', c, invariants=['WeakTargetsStored'], view='View')
-    r = ctx.model_check('MCZGraph', cfg, name='weakadds-off', expect_violation='WeakTargetsStored', timeout=300)
     steps = [dict(s) for s in r.trace]
     res = G.replay_behaviour((steps, 'mapping', 'seq', (), os.path.join(ctx.scratch, 'witness'), {}))
     mm = res['mismatch']
@@ -233,6 +268,10 @@ EXHIBITS = [
      dict(NNode=2, FNodes=(), Holders=('direct',), KindSets='KS_Plain', MaxEdges=1, MaxOps=4, Savepoints=True),
      dict(properties=['StoredIffReachableOrAdded']), 'StoredIffReachableOrAdded',
      ('Commit', 'stored-iff', 'orphan-after-savepoint')),
+    ('import-abort-reattach',
+     dict(NNode=2, FNodes=(), Holders=('direct',), KindSets='KS_Plain', MaxEdges=1, MaxOps=4, ImportSlots=(1,)),
+     dict(invariants=['NoDanglingStrong']), 'NoDanglingStrong',
+     ('Commit', 'dangling', 'reference-to-unstored-object')),
     ('py2-module-name', dict(NNode=2, FNodes=(), Holders=('direct',), KindSets='KS_Py2', MaxEdges=1, MaxOps=3),
      dict(invariants=['LoadedClassesArePresent']), 'LoadedClassesArePresent',
      ('LoadElsewhere', 'class', 'py2-module-name-remapped')),
@@ -246,14 +285,13 @@ EXHIBITS = [
 ]
 
 
-def exhibits(ctx, tally):
+def exhibits(ctx, tally, results):
     """For every deviation constant: with the constant at the code's behaviour TLC exhibits the violated property;
     the counterexample, replayed on the code, must conform step by step - which establishes the violation on the
     code (reported by the replay's property monitor under a signature of its own)."""
     out = {}
     for name, c, kw, prop, want in EXHIBITS:
-        cfg = _cfg(ctx, 'exhibit-' + name, consts(**c), view='View', **kw)
-        r = ctx.model_check('MCZGraph', cfg, name='exhibit-' + name, expect_violation=prop, timeout=600)
+        r = results['exhibit-' + name]
         steps = [dict(s) for s in r.trace]
         res = _replay_job((steps, 'mapping', 'seq', (), os.path.join(ctx.scratch, 'exhibit-' + name), {}))
         res['source'] = None
@@ -272,6 +310,7 @@ def exhibits(ctx, tally):
 def run(ctx):
     q = ctx.quick
     tally = Tally()
+    batch = Batch(ctx, parallel=10 if q else 6)
     # 1. the design, every program over a small universe
     mc = [('programs-3n', consts(NNode=3, FNodes=(100,), Holders=('direct', 'list'), KindSets='KS_Rot0',
                                  MaxEdges=2, MaxOps=4 if q else 6))]
@@ -279,21 +318,22 @@ def run(ctx):
         mc.append(('programs-2n-kinds', consts(NNode=2, FNodes=(100, 101), Holders=('direct', 'deep'), KindSets='KS_Any',
                                                MaxEdges=3, MaxOps=4)))
     for name, c in mc:
-        cfg = _cfg(ctx, name, c, invariants=INVARIANTS, properties=PROPERTIES, view='View')
-        ctx.model_check('MCZGraph', cfg, name=name, timeout=1500)
+        batch.mc(name, _cfg(ctx, name, c, invariants=INVARIANTS, properties=PROPERTIES, view='View'), workers=6, timeout=1500)
     # the loading connection through its life-cycle (close / re-open from the pool, resetCaches, deactivation, abort)
     lc = consts(NNode=2, FNodes=(), Holders=('direct',), KindSets='KS_Rot0', MaxEdges=1, MaxOps=5 if q else 7, Lifecycle=True)
-    ctx.model_check('MCZGraph', _cfg(ctx, 'lifecycle-2n', lc, invariants=['TypeOK', 'BOK', 'RoundTrip'],
-                                     properties=['SameUnlessReset'], view='View'), name='lifecycle-2n', timeout=900)
-    witness = deviation_witness(ctx)
+    batch.mc('lifecycle-2n', _cfg(ctx, 'lifecycle-2n', lc, invariants=['TypeOK', 'BOK', 'RoundTrip'],
+                                  properties=['SameUnlessReset'], view='View'), timeout=900)
+    batch.mc('weakadds-off', _cfg(ctx, 'weakadds-off', consts(**WITNESS), invariants=['WeakTargetsStored'], view='View'),
+             expect='WeakTargetsStored', workers=1, timeout=300)
     # savepoints: the repaired design (a commit copies only justified records) has every property
     sp = consts(NNode=3, FNodes=(), Holders=('direct',), KindSets='KS_Plain', MaxEdges=2, MaxOps=4 if q else 6,
-                Savepoints=True, repaired=DEVIATIONS)
-    ctx.model_check('MCZGraph', _cfg(ctx, 'savepoints-3n', sp, invariants=INVARIANTS, view='View',
-                                     properties=PROPERTIES + ['SavepointsInvisible']), name='savepoints-3n', timeout=900)
-    shown = exhibits(ctx, tally)
+                Savepoints=True, ImportSlots=(2,), repaired=DEVIATIONS)
+    batch.mc('savepoints-3n', _cfg(ctx, 'savepoints-3n', sp, invariants=INVARIANTS + ['NoStaleObjects'], view='View',
+                                   properties=PROPERTIES + ['SavepointsInvisible']), workers=4, timeout=900)
+    for name, c, kw, prop, want in EXHIBITS:
+        batch.mc('exhibit-' + name, _cfg(ctx, 'exhibit-' + name, consts(**c), view='View', **kw), expect=prop, workers=1,
+                 timeout=600)
     # 2. all small graphs
-    ncases = {}
     # node kinds of the quick configuration: newargs (root), gone, gonenew; plain nodes are in the programs
     gcfgs = [('graphs-rot1', consts(NNode=3, FNodes=(100,), Holders=('direct', 'deep'), KindSets='KS_Rot1', MaxEdges=2), (100,))]
     if not q:
@@ -304,12 +344,26 @@ def run(ctx):
             ('graphs-rot3', consts(NNode=3, FNodes=(101,), Holders=('list', 'dict'), KindSets='KS_Rot3', MaxEdges=2), (101,)),
         ]
     for name, c, fn in gcfgs:
-        ncases[name] = graphs(ctx, tally, name, c, fn, both=not q and name == 'graphs-rot1')
+        batch.mc(name, _cfg(ctx, name, c, init='InitGraphs', next_='NextGraphs', invariants=GRAPH_INVARIANTS), workers=4,
+                 timeout=1500, heap='6g')
     # 3. mutation programs of a larger configuration
     big = consts(NNode=4, FNodes=(100, 101), Holders=('direct', 'list', 'dict', 'deep', 'glist', 'gdict', 'rvalue'),
                  KindSets='KS_RootPlain', MaxEdges=6, MaxOps=14, NCand=40, CandSize=6, Lifecycle=True, Savepoints=True,
                  Touches=True)
-    nprog = programs(ctx, tally, 'programs-4n', big, (100, 101), num=1500 if q else 12000, depth=18)
+    batch.sim('programs-4n', big, num=1500 if q else 12000, depth=18)
+    # savepoint-dense programs over a small universe (savepoint, rollback to any live savepoint, re-attach, commit)
+    spd = consts(NNode=3, FNodes=(), Holders=('direct', 'list'), KindSets='KS_Three', MaxEdges=3, MaxOps=11, NCand=12,
+                 CandSize=7, Savepoints=True, ImportSlots=(2,))
+    batch.sim('programs-sp', spd, num=500 if q else 4000, depth=13)
+    results = batch.run()
+    # every TLC thread is joined: replay
+    witness = deviation_witness(ctx, results['weakadds-off'])
+    shown = exhibits(ctx, tally, results)
+    ncases = {}
+    for name, c, fn in gcfgs:
+        ncases[name] = graphs(ctx, tally, name, results[name], fn, both=not q and name == 'graphs-rot1')
+    nprog = programs(ctx, tally, 'programs-4n', results['programs-4n'], (100, 101))
+    nprog += programs(ctx, tally, 'programs-sp', results['programs-sp'], ())
     # vacuity
     missing = [a for a in ACTIONS if not tally.actions.get(a)] + [f for f in FORMATS if not tally.formats.get(f)]
     for k in ('imports', 'exports', 'packs', 'loads', 'refs_checked', 'loads_after_reset', 'loads_reusing_objects',
